@@ -804,7 +804,43 @@ func (f *fnTrans) analyzeLoops() {
 				if li.spec != nil {
 					*ns = *li.spec
 				}
-				ns.Invariants = append(append([]*Clause{}, ns.Invariants...), f.c.AllLoopInv...)
+				ns.Invariants = append([]*Clause{}, ns.Invariants...)
+				// a loop whose header carries the pending error (for x != nil && err == nil { ...; x, err = next() })
+				// is re-entered with the failure flag raised only to leave at once: the schema's
+				// "flag unchanged" invariant is stated modulo that pending error
+				// (only where the error carried into the header comes from a call that can raise the flag)
+				errFrom := map[string]bool{} // ghost flags a call defining the header's err may raise
+				for _, ins := range h.Instrs {
+					phi, ok := ins.(*ssa.Phi)
+					if !ok || phi.Comment != "err" || !isErrorType(phi.Type()) {
+						continue
+					}
+					for _, e := range phi.Edges {
+						if ex, ok := e.(*ssa.Extract); ok {
+							e = ex.Tuple
+						}
+						call, ok := e.(*ssa.Call)
+						if !ok {
+							continue
+						}
+						if _, callee := f.w.calleeName(call.Common()); callee != nil {
+							for hp := range f.w.modsets[callee] {
+								errFrom[hp] = true
+							}
+						}
+					}
+				}
+				for _, cl := range f.c.AllLoopInv {
+					if cl.Line == "schema:err" && strings.Contains(cl.Src, " == old(") {
+						gv := strings.TrimSpace(cl.Src[:strings.Index(cl.Src, " == old(")])
+						if errFrom["G$"+gv] {
+							w := mustClause("invariant", cl.Src+" || err != nil", cl.Props, cl.Line)
+							ns.Invariants = append(ns.Invariants, w, mustClause("invariant", "old("+gv+") ==> "+gv, cl.Props, cl.Line))
+							continue
+						}
+					}
+					ns.Invariants = append(ns.Invariants, cl)
+				}
 				li.spec = ns
 			}
 		}
@@ -937,7 +973,13 @@ func (f *fnTrans) callMods(c *ssa.CallCommon) []string {
 		if user {
 			for _, n := range reentryAPI {
 				if g, ok := f.w.Fns[n]; ok {
-					addAll(f.w.ModsetOf(g))
+					var hs []string
+					for _, h := range f.w.ModsetOf(g) {
+						if h != "G$rdfailed" {
+							hs = append(hs, h)
+						}
+					}
+					addAll(hs)
 				}
 			}
 		}
@@ -2006,7 +2048,9 @@ func (f *fnTrans) fnValEffects(v ssa.Value, set map[string]bool) {
 		for _, n := range reentryAPI {
 			if g, ok := f.w.Fns[n]; ok {
 				for h := range f.w.modsets[g] {
-					set[h] = true
+					if h != "G$rdfailed" {
+						set[h] = true
+					}
 				}
 			}
 		}
